@@ -54,3 +54,18 @@ claim("C16",
       "Decides that the stop channel is only touched under its lock, that the running-check deciding the close and the close are one critical section (no double close), that stop, channel creation and goroutine start are one critical section handing the new channel to the goroutine (no leaked stream), that the counter is atomic, that the ticker period is by construction never more than the announced timeout, that the loop has a returning stop case and refreshes through SetData with a fresh counter, and that RemoveEntity stops a present manager. Necessary conditions; periodicity and in-flight refreshes are timing properties and not decided.",
       "Trusted: go/ssa, time.Ticker.",
       "DESIGN.md §4 C16")
+claim("C04",
+      "dominance/reachability under finite atom assignments on the update engine + ownership analysis + tag tables + constant propagation",
+      "Decides, on the remote-write path of the update engine and the store, whether the wholesale replace path is open to remote writes, whether existing items are written in place before the outcome is known, whether each failure flag is control-dependent on the item being addressed, whether any mutator call or replacement is reachable with an unchangeable item (CFG reachability with writeAllowed=false, remoteWrite=true fixed), whether the reflective mutators consult the writecheck tag and whether the tag-aware one restores the flag (three reachability questions), plus the writecheck tag table. Today's tree has 9 recorded known findings (pinned by tests or not small); everything else holds. Necessary conditions; element-level outcomes over all write shapes are not decided.",
+      "Trusted: go/ssa; reflection summarised by the ValueOf(param).Elem()...Set pattern; writeAllowed is uninterpreted.",
+      "DESIGN.md §4 C04")
+claim("C11",
+      "ownership analysis: computed write-through summaries propagated over the call graph + alias rules on the store field + dominance rules",
+      "Decides which code can write memory shared between the function-data store, snapshots handed out and event payloads: write-through summaries (pointer stores, element stores, reflect Set, in-place sorts) are computed for ~150 functions and propagated from the stored object and from DataCopy results down to the sites that write elements of a slice they do not own; plus: no caller object is stored, the stored pointer never escapes, DataCopy copies, stores happen only when persisting, siblings assign only under success&&persist. 5 known findings (in-place engine, pinned by tests; returned persisted list). Necessary conditions of snapshot stability.",
+      "Trusted: go/ssa, call resolution; DataCopy is shallow by design so everything rests on nothing writing shared lists in place (which is what is decided).",
+      "DESIGN.md §4 C11")
+claim("C20",
+      "lockset read-modify-write rule + ownership rule + sibling/provenance rules",
+      "Decides that in each of the four use-case mutators the DataCopy and the SetData of the modified copy share one critical section of one common lock, that no use-case helper writes shared list elements in place, that all five methods key by the entity's own device+entity address, copy the use-case function and delegate to the matching helper, that RemoveEntity clears the entity's use cases and that the read is answered from the stored function. Necessary conditions; registry contents over histories are not decided.",
+      "Trusted: go/ssa, call resolution.",
+      "DESIGN.md §4 C20")
